@@ -69,8 +69,8 @@ UNITS_BY_DIM: dict[tuple[str, ...], list[str]] = {}
 for _n, (_f, _d, _x) in MU.TABLE.items():
     UNITS_BY_DIM.setdefault(_dj(_d), []).append(_n)
 
-# the last two are exact, finite, non-zero magnitudes outside the range of a double (10**400 and its reciprocal)
-_POS_RATS = ["1", "2", "3", "5", "7", "12", "1/2", "3/2", "2/3", "5/4", "7/10", "1/10", "100", "1" + "0" * 400, "1/1" + "0" * 400]
+_POS_RATS = ["1", "2", "3", "5", "7", "12", "1/2", "3/2", "2/3", "5/4", "7/10", "1/10", "100"]
+_BIG, _SMALL = "1" + "0" * 400, "1/1" + "0" * 400  # used by the fixed shapes of class "extreme" only (see g_extreme)
 _FLOATS = ["0.5", "1.5", "2.25", "0.125", "3.0", "10.0", "0.1", "2.3", "1000.0", "4.4e4", "5e-3", "1.1", "1.6e-19", "6.0e23", "9.1e-31"]
 _EXPONENTS = ["2", "2", "3", "-1", "-1", "-2", "1/2", "1/2", "3/2", "-1/2", "1/3", "0"]
 _PREFIX_NAMES = list(MU.PREFIXES)
@@ -499,6 +499,10 @@ def case_strategy(draw: Any, cls: str) -> dict[str, Any]:
         tree, tag = g_fzero(draw)
         case.update(tree=tree, dim=None, tag=tag)
         return case
+    if cls == "extreme":
+        tree, dim, tag = g_extreme(draw)
+        case.update(tree=tree, dim=dim, tag=tag)
+        return case
     dj = draw(st.sampled_from(PALETTE + PALETTE + [ONE_J] * 4))
     if cls == "complex":
         case.update(tree=g_complex(draw, dj), dim=list(dj), tag="complex")
@@ -516,7 +520,27 @@ def case_strategy(draw: Any, cls: str) -> dict[str, Any]:
     return case
 
 
-CLASS_MIX = [("valid", 34), ("spoil", 26), ("wild", 20), ("cancel", 10), ("fzero", 6), ("complex", 4)]
+def g_extreme(draw: Any) -> tuple[list[Any], Any, str]:
+    """Exact, finite, non-zero magnitudes OUTSIDE the range of a double (10**400, 10**-400) in a few fixed shapes without
+    float terms or cancelling sums (there the library's float arithmetic and the exact model legitimately part ways): such
+    a magnitude is neither zero nor infinite, so it must keep its dimension and must not excuse a dimension mismatch."""
+    r = draw(st.sampled_from([_BIG, _SMALL]))
+    unit = draw(st.sampled_from(["meter", "second", "kilogram", "ampere"]))
+    other = draw(st.sampled_from([u for u in ("meter", "second", "kilogram", "ampere") if u != unit]))
+    shape = draw(st.sampled_from(["product", "square", "two-quantities", "sum-mismatch", "exponent"]))
+    dv = MU.dim(unit)
+    if shape == "product":
+        return ["mul", ["n", r], ["u", unit]], list(_dj(dv)), "extreme:valid"
+    if shape == "square":
+        return ["mul", ["n", r], ["pow", ["u", unit], ["n", "2"]]], list(_dj(dv**2)), "extreme:valid"
+    if shape == "two-quantities":
+        return ["mul", ["q", ["n", r], unit], ["q", ["n", r], other]], list(_dj(dv * MU.dim(other))), "extreme:valid"
+    if shape == "sum-mismatch":
+        return ["add", ["q", ["n", r], unit], ["q", ["n", "3"], other]], None, "spoil:extreme:add_dims"
+    return ["pow", ["n", "2"], ["q", ["n", _SMALL], unit]], None, "spoil:extreme:exp_dim"
+
+
+CLASS_MIX = [("valid", 34), ("spoil", 26), ("wild", 20), ("cancel", 10), ("fzero", 6), ("complex", 4), ("extreme", 2)]
 
 # ------------------------------------------------------------------------------------------------
 # judging one case
